@@ -235,6 +235,11 @@ def access_module(wd):
     return mod
 
 
+# assignments implemented as one flat copy over the operands' storage: equal element counts already exclude any out-of-bounds access, so a size
+# comparison (array_ref's own assertion compares num_elements()) is accepted in place of an extents comparison
+FLAT_ASSIGN = ("view_elements_assign", "ref_assign_ref", "ref_move_assign", "rvalue_ref_move_assign")
+
+
 def norm_events(r):
     out = []
     for e in r["events"]:
@@ -294,7 +299,7 @@ def run(tier):
             if not ok_paths:
                 bad.append("no assigning path")
             for r in ok_paths:
-                atoms = [(c, v) for c, v in r["pc"].items() if is_extent_atom(c, shape=n not in ("view_elements_assign", "ref_assign_ref"))]
+                atoms = [(c, v) for c, v in r["pc"].items() if is_extent_atom(c, shape=n not in FLAT_ASSIGN)]
                 if not any(v for c, v in atoms):
                     bad.append("an assigning path has not passed an extents / size comparison of the operands")
                     continue
@@ -395,6 +400,13 @@ def silent(rep, tier):
         rest_idx = "".join("[i%d]" % k for k in range(1, D))
         cr.add("O20.silent.sliced(D=%d)" % D, "O20.silent", D, idx + ["a", "w"], "auto&& s = v.sliced(a, a + w); out[0] = s.size(); out[1] = eaddr(s[0]%s, base);" % rest_idx,
                {(0, "size"): 1 + A("u"), (1, "first element"): w.addr([P.const(0)] + rest) * viewops.ELEM}, cases=[dict(env_s, __signs=sg)])
+        # empty slices are valid anywhere in [0, size]: at the beginning, in the interior and at the end
+        for nm, a_, z_ in (("empty at the beginning", P.const(0), 1 + A("tt")), ("empty inside", 1 + A("ra"), 2 + A("ra") + A("tt")), ("empty at the end", 1 + A("ra"), 1 + A("ra")),
+                           ("empty slice of an empty view", P.const(0), P.const(0))):
+            env_e = dict(env_in)
+            env_e.update({"a": a_, "w": P.const(0), "z0": z_})
+            cr.add("O20.silent.sliced(D=%d,%s)" % (D, nm), "O20.silent", D, idx + ["a", "w"], "auto&& s = v.sliced(a, a + w); out[0] = s.size(); out[1] = s.is_empty();",
+                   {(0, "size"): P.const(0), (1, "is_empty"): P.const(1)}, cases=[dict(env_e, __signs=sg)])
         # out of domain: i0 = z0 + r  (beyond the end) and i0 = -1 - r (before the beginning)
         for nm, i0 in (("beyond", 1 + A("t0") + A("r")), ("before", -1 - A("r"))):
             env_o = dict(env_in)
@@ -404,8 +416,65 @@ def silent(rep, tier):
             sg2["r"] = NONNEG
             cr.add("O20.fires.%s(D=%d)" % (nm, D), "O20.fires", D, idx, "out[0] = eaddr(v%s, base);" % chain, {(0, "must-assert"): P.const(0)},
                    cases=[dict(env_o, __signs=sg2, __expect_assert=True)])
-    cr.compile(nshards=4, defines=("-UNDEBUG",))
+    # D = 2, 3: slicing alone (one result view, no chained sub-view temporaries)
+    for D in (2, 3):
+        env2, sg2 = {}, {}
+        for k in range(D):
+            sg2["s%d" % k] = POS
+            sg2["t%d" % k] = NONNEG
+            if k:
+                env2["z%d" % k] = 1 + A("t%d" % k)
+        sg2.update({"ra": NONNEG, "u": NONNEG, "tt": NONNEG})
+        for nm, a_, w_, z_ in (("non-empty", A("ra"), 1 + A("u"), A("ra") + 1 + A("u") + A("tt")), ("empty at the beginning", P.const(0), P.const(0), 1 + A("tt")),
+                               ("empty inside", 1 + A("ra"), P.const(0), 2 + A("ra") + A("tt")), ("empty at the end", 1 + A("ra"), P.const(0), 1 + A("ra")),
+                               ("empty slice of an empty view", P.const(0), P.const(0), P.const(0))):
+            env_e = dict(env2)
+            env_e.update({"a": a_, "w": w_, "z0": z_})
+            cr.add("O20.silent.sliced(D=%d,%s)" % (D, nm), "O20.silent", D, ["a", "w"], "auto&& s = v.sliced(a, a + w); out[0] = s.size();",
+                   {(0, "size"): w_}, cases=[dict(env_e, __signs=sg2)])
+        # out of domain: the slice ends beyond the extension
+        env_o = dict(env2)
+        env_o.update({"a": A("ra"), "w": 2 + A("u") + A("tt"), "z0": A("ra") + 1 + A("u")})
+        cr.add("O20.fires.sliced-beyond(D=%d)" % D, "O20.fires", D, ["a", "w"], "auto&& s = v.sliced(a, a + w); out[0] = s.size();", {(0, "must-assert"): P.const(0)},
+               cases=[dict(env_o, __signs=sg2, __expect_assert=True)])
+    cr.compile(nshards=4, defines=("-UNDEBUG", "-mllvm", "-inline-threshold=1000000"))
     check_expect(cr, rep)
+    # element access of a 1-D view whose index base is not zero: the assertion is about the extension [f, f + size), not about [0, size)
+    crf = viewops.CustomRun(rep, "C20", False, wd, "dbgfb")
+    for bn, f0 in (("positive base", 1 + A("g")), ("negative base", -1 - A("g"))):
+        sg = {"g": NONNEG, "r": NONNEG, "t": NONNEG, "s0": POS}
+        env_in = {"f0": f0, "i0": f0 + A("r"), "z0": A("r") + 1 + A("t")}
+        want = vs.root(1, False).subst(env_in).addr([f0 + A("r")]) * viewops.ELEM
+        crf.add("O20.silent.brackets(D=1,%s)" % bn, "O20.silent", 1, ["i0"], "out[0] = eaddr(v[i0], base);", {(0, "brackets"): want}, cases=[dict(env_in, __signs=sg)])
+        for nm, i0 in (("beyond", f0 + 1 + A("t") + A("r")), ("before", f0 - 1 - A("r"))):
+            env_o = {"f0": f0, "i0": i0, "z0": 1 + A("t")}
+            crf.add("O20.fires.%s(D=1,%s)" % (nm, bn), "O20.fires", 1, ["i0"], "out[0] = eaddr(v[i0], base);", {(0, "must-assert"): P.const(0)},
+                    cases=[dict(env_o, __signs=sg, __expect_assert=True)])
+    crf.compile(nshards=2, defines=("-UNDEBUG", "-mllvm", "-inline-threshold=1000000"))
+    check_expect(crf, rep)
+
+
+def members(ev, fn, args, signs, tries=60):
+    """evaluates the function on concrete members of the case class (small integers of each symbol's sign class); yields (assignment, outcome) with
+    outcome 'assert' | 'completes' for the members on which the evaluation is decided"""
+    import random
+    rnd = random.Random(common.seed_from_env())
+    names = set()
+    for a in args:
+        for sy in a.symbols():
+            for t in re.findall(r"[A-Za-z_]\w*", sy):
+                names.add(t)
+    names -= {"base", "out", "div", "ite"}
+    for _ in range(tries):
+        env = viewops.sample_env(sorted(names), signs, rnd)
+        penv = {k: P.const(v) for k, v in env.items()}
+        try:
+            ev.run(fn, [a.subst(penv) for a in args], signs)
+            yield env, "completes"
+        except irval.AssertFires:
+            yield env, "assert"
+        except (irval.Inconclusive, ZeroDivisionError, KeyError):
+            continue
 
 
 def check_expect(cr, rep):
@@ -419,14 +488,20 @@ def check_expect(cr, rep):
         env = {k: v for k, v in case.items() if not k.startswith("__")}
         signs = viewops.base_signs(it.D)
         signs.update(case.get("__signs", {}))
-        args = [A("base")] + viewops.descriptor_args(it.D, True, env) + [A(a).subst(env) for a in it.args] + [A("out")]
+        args = [A("base")] + viewops.descriptor_args(it.D, cr.zb, env) + [A(a).subst(env) for a in it.args] + [A("out")]
         try:
             cr.ev.run(cr.fn(i), args, signs)
             rep.violated(it.key, it.family, "%s: an access with an index outside the extension reaches no assertion (evaluated to completion)" % it.key, dict(body=it.body))
         except irval.AssertFires as e:
             rep.ok(it.key, it.family, dict(handler=str(e)[:100]))
         except irval.Inconclusive as e:
-            rep.inconclusive(it.key, it.family, str(e))
+            # the library's test depends on values the case does not fix: decide on concrete members of the case class
+            miss = [envc for envc, oc in members(cr.ev, cr.fn(i), args, signs) if oc == "completes"]
+            if miss:
+                rep.violated(it.key, it.family, "%s: an access with an index outside the extension reaches no assertion for %s (the test depends on values the case "
+                             "does not fix: %s)" % (it.key, miss[0], str(e)[:100]), dict(body=it.body, member=miss[0]))
+            else:
+                rep.inconclusive(it.key, it.family, str(e))
     keep = [(i, it) for i, it in enumerate(cr.items) if not it.cases[0].get("__expect_assert")]
     # evaluate the in-domain items with the standard comparer, keeping function indices
     cmp_ = viewops.ViewRun(rep, cr.pid, cr.zb, cr.wd)
@@ -435,12 +510,17 @@ def check_expect(cr, rep):
         env = {k: v for k, v in case.items() if not k.startswith("__")}
         signs = viewops.base_signs(it.D)
         signs.update(case.get("__signs", {}))
-        args = [A("base")] + viewops.descriptor_args(it.D, True, env) + [A(a).subst(env) for a in it.args] + [A("out")]
+        args = [A("base")] + viewops.descriptor_args(it.D, cr.zb, env) + [A(a).subst(env) for a in it.args] + [A("out")]
         try:
             cr.ev.run(cr.fn(i), args, signs)
             st = cr.ev.stores
         except irval.Inconclusive as e:
-            rep.inconclusive(it.key, it.family, str(e))
+            fired = [envc for envc, oc in members(cr.ev, cr.fn(i), args, signs) if oc == "assert"]
+            if fired:
+                rep.violated(it.key + ".assert", it.family, "an assertion fires on an in-domain access for %s (the test depends on values the case does not fix: %s)"
+                             % (fired[0], str(e)[:100]), dict(body=it.body, member=fired[0]))
+            else:
+                rep.inconclusive(it.key, it.family, str(e))
             continue
         except irval.AssertFires as e:
             rep.violated(it.key + ".assert", it.family, "an assertion fires on an in-domain access: %s" % e, dict(body=it.body))
